@@ -232,7 +232,35 @@ ALPHABET = {
     'phase_refractivity_arr': lambda: (gsv.phase_refractivity, [0.85, A([20.0, 25.0]), A([1013.25, 990.0]), A([10.0, 12.0])]),
     'group_refractivity_arr': lambda: (gsv.group_refractivity, [0.85, A([20.0, 25.0]), A([1013.25, 990.0]), A([10.0, 12.0])]),
     'group_refractivity': lambda: (gsv.group_refractivity, [0.85, 20.0, 1013.25, 10.0, 450]),
+    # --- valid but HARD inputs (slowly converging, nearly antipodal) and BATCHES of ordinary inputs: a convergence control that a hard
+    # call relaxes and leaves behind only changes the last digit of some later results - a batch of 240 lines sees it
+    'vincinv_near_antipodal': lambda: (gg.vincinv, [-30.0, 10.0, 30.2, -169.8]),
+    'vincinv_near_antipodal2': lambda: (gg.vincinv, [0.5, 0.0, -0.3, 179.2, gc.ans]),
+    'vincdir_far': lambda: (gg.vincdir, [-30.0, 10.0, 89.7, 19990000.0]),
+    'batch_vincinv': lambda: (_batch, ['vincinv']),
+    'batch_vincdir': lambda: (_batch, ['vincdir']),
+    'batch_utm': lambda: (_batch, ['utm']),
+    'batch_grid': lambda: (_batch, ['grid']),
 }
+
+
+def _batch(kind):
+    out = []
+    for i in range(240 if kind != 'utm' else 40):
+        la1, lo1 = -44.0 + (i * 7.123456789) % 88.0, -170.0 + (i * 23.456789123) % 340.0
+        la2, lo2 = la1 + ((i * 0.7548776662) % 1.0 - 0.5) * (0.3 if i % 3 else 40.0), lo1 + ((i * 0.5698402909) % 1.0 - 0.5) * (0.4 if i % 3 else 70.0)
+        if kind == 'vincinv':
+            out.append(gg.vincinv(la1, lo1, la2, lo2))
+        elif kind == 'vincdir':
+            out.append(gg.vincdir(la1, lo1, (i * 37.7) % 360.0, 10.0 ** (1 + (i % 60) / 10.0)))
+        elif kind == 'utm':
+            out.append(gg.vincinv_utm(55, 250000.0 + 9000.0 * i, 5800000.0 - 777.0 * i, 55, 640000.0 - 5000.0 * i, 5900000.0 + 3333.0 * i))
+        else:
+            g = gv.geo2grid(la1, lo1)
+            out.append((g, gv.grid2geo(g[1], g[2], g[3], g[0])))
+    return tuple(out)
+
+
 NAMES = sorted(ALPHABET)
 
 # --- objects that a caller shares between calls / threads (read-only sharing of input data is normal use): a call may not
